@@ -1,6 +1,7 @@
 import Proofs.Pareto
 import Proofs.ParetoRanked
 import Proofs.ParetoLoop
+import Proofs.ParetoFront
 
 /-!
 # C11 — Non-dominated set and Pareto front are exact
@@ -68,6 +69,26 @@ harness on the implementation's own outputs decides exactly the specification. -
 theorem C11_checker (pts : List Vec) (sel : List Nat) :
     checkSel pts sel = true ↔ NdsSpec pts sel :=
   checkSel_iff pts sel
+
+/-- **C11 (`is_pareto_efficient`).**  The incremental test used by callbacks answers true exactly
+when no already recorded vector weakly dominates the new one — so a vector that is dominated by, or
+equal to, a recorded one is never reported efficient. -/
+theorem C11_is_pareto_efficient (new : Vec) (objs : List Vec) :
+    (isParetoEfficient new objs = true ↔ ∀ r ∈ objs, wdVec r new = false) ∧
+    (isParetoEfficient new objs = true → ∀ r ∈ objs, dominates r new = false ∧ r ≠ new) := by
+  refine ⟨isParetoEfficient_iff new objs, fun h r hr => ?_⟩
+  have hw := (isParetoEfficient_iff new objs).1 h r hr
+  constructor
+  · simp [dominates, hw]
+  · intro e; subst e; rw [wdVec_refl] at hw; exact absurd hw (by simp)
+
+/-- **C11 (`pareto_front(sort=True)`).**  The sorted front lists exactly the indices of the
+unsorted front, in lexicographic order of their objective vectors. -/
+theorem C11_front_sorted (pts : List Vec) (order : List Nat) (h : OrderOK pts.length order) :
+    (frontSortedIdx pts order).Perm (ndsIdx pts order) ∧
+    ((((ndsIdx pts order).filterMap (fun i => (pts[i]?).map (fun v => (i, v)))).mergeSort
+      (fun a b => lexLe a.2 b.2)).Pairwise (fun a b => lexLe a.2 b.2 = true)) :=
+  frontSortedIdx_spec pts order (C11_nds pts order h).valid
 
 /-! ### ranked peeling (`non_dominated_set_ranked`) — `ord` is what `argsort` does to the
 remaining rows in each round; `OrdOK` = it neither loses nor invents a row. -/
@@ -138,6 +159,10 @@ example : ndsIdx [[1, 2], [2, 1], [1, 2], [2, 2]] [2, 0, 3, 1] = [2, 1] := by de
 example : checkSel [[1, 2], [2, 1], [1, 2], [2, 2]] [2, 1] = true := by decide +kernel
 example : checkSel [[1, 2], [2, 1], [1, 2], [2, 2]] [0, 2, 1] = false := by decide +kernel
 
+-- (`frontSortedIdx` uses `List.mergeSort`, defined by well-founded recursion, which the kernel does not
+-- unfold: its concrete values are exercised by the driver on every run instead of by `decide`.)
+example : isParetoEfficient [1, 2] [[2, 1], [1, 3]] = true ∧ isParetoEfficient [1, 2] [[1, 2]] = false := by
+  decide +kernel
 example : OrdOK (fun l => l.reverse) := fun l r => List.mem_reverse
 example : rankedIdx (fun l => l.reverse) [[1, 2], [2, 1], [1, 2], [2, 2], [3, 3]] 3 = [1, 2, 0] := by
   decide +kernel
